@@ -772,6 +772,13 @@ pub fn check(env: &Env, c: &Case, st: &mut Stats) -> CaseResult {
             Ok(())
         }
         Case::RawText(text) => {
+            // digit separators may stand anywhere inside a literal, also around its `e`
+            // (`.272__e___2________000000000`): judge the text without them
+            let stripped: String = text.chars().filter(|c| *c != '_' && *c != '\u{2009}').collect();
+            if crate::oracle::cost::has_huge_exponent(&stripped) || crate::oracle::cost::has_huge_power(&stripped) {
+                st.excluded("text contains a literal exponent or power above 5000 once digit separators are removed");
+                return Ok(());
+            }
             if crate::oracle::cost::has_huge_exponent(text) {
                 st.excluded("text contains a literal exponent above 5000");
                 return Ok(());
